@@ -71,27 +71,29 @@ def run(ck, facts, tier):
     # ---------------- R04.4 dispatch tables / R04.5 family closure
     r4 = ck.rule("R04.4", "dispatch: Act -> input unchanged; F, P, ModF, ModP -> forward / backward / mod-forward / mod-backward member of the settled resp. unsettled "
                           "family; roll(settlement) selects the settled table iff settlement is true, passing date, calendar and modifier through", floor=11)
-    tables = {"roll_with_settlement": {"Act": None, "F": "roll_forward_settled_bus_day", "P": "roll_backward_settled_bus_day",
-                                       "ModF": "roll_forward_mod_settled_bus_day", "ModP": "roll_backward_mod_settled_bus_day"},
-              "roll_without_settlement": {"Act": None, "F": "roll_forward_bus_day", "P": "roll_backward_bus_day",
-                                          "ModF": "roll_mod_forward_bus_day", "ModP": "roll_mod_backward_bus_day"}}
-    CAL = Sym("param", "cal")
-    for fn, tab in tables.items():
+    tables = {True: {"Act": None, "F": "roll_forward_settled_bus_day", "P": "roll_backward_settled_bus_day",
+                     "ModF": "roll_forward_mod_settled_bus_day", "ModP": "roll_backward_mod_settled_bus_day"},
+              False: {"Act": None, "F": "roll_forward_bus_day", "P": "roll_backward_bus_day",
+                      "ModF": "roll_mod_forward_bus_day", "ModP": "roll_mod_backward_bus_day"}}
+    # judged on `roll` itself with its dispatch helpers (roll_with_settlement / roll_without_settlement, if there are any) inlined: whether the two tables live
+    # in helper functions, in `roll`, or behind a function pointer is not the property
+    for settled, tab in tables.items():
         for mod, want in tab.items():
-            key = "%s[%s]" % (fn, mod)
+            key = "roll[%s,%s]" % ("settlement" if settled else "no settlement", mod)
             try:
-                ev = cel.Ev(facts, hooks=hooks())
-                got = ev.apply_fn("calendars::dateroll::" + fn, [D, CAL, Sym("ctor", mod)], 0)
-                exp = D if want is None else R(want, CAL, D)
-                ck.check(r4, key, vkey(got) == vkey(exp), "%s maps %s to %s" % (fn, mod, cel.vfmt(got)[:200]), where(fn), sample=cel.vfmt(exp)[:120])
+                ev = cel.Ev(facts, hooks=hooks(exclude=("roll", "roll_with_settlement", "roll_without_settlement")))
+                got = ev.apply_fn(DR + "roll", [S, D, Sym("ctor", mod), Sym("bool", "true" if settled else "false")], 0)
+                exp = D if want is None else R(want, S, D)
+                ck.check(r4, key, vkey(got) == vkey(exp), "roll(%s, settlement=%s) gives %s" % (mod, settled, cel.vfmt(got)[:200]), where("roll"), sample=cel.vfmt(exp)[:120])
             except Unsupported as e:
-                ck.fail(r4, key, "rule could not be established (%s)" % e, where(fn))
+                ck.fail(r4, key, "rule could not be established (%s)" % e, where("roll"))
     try:
+        # with a symbolic flag: exactly the two tables, selected by the flag
         M, ST = Sym("param", "modifier"), Sym("param", "settlement")
-        got = ev_fn("roll", [S, D, M, ST])
-        want = {(frozenset({(vkey(ST), True)}), vkey(R("roll_with_settlement", D, S, M))), (frozenset({(vkey(ST), False)}), vkey(R("roll_without_settlement", D, S, M)))}
+        got = cel.Ev(facts, hooks=hooks(exclude=("roll", "roll_with_settlement", "roll_without_settlement"))).apply_fn(DR + "roll", [S, D, Sym("ctor", "F"), ST], 0)
+        want = {(frozenset({(vkey(ST), True)}), vkey(R("roll_forward_settled_bus_day", S, D))), (frozenset({(vkey(ST), False)}), vkey(R("roll_forward_bus_day", S, D)))}
         ck.check(r4, "roll", paths.path_set(got) == want, "roll does not select the settled table exactly when settlement is true (passing date, self, modifier through)", where("roll"),
-                 detail=paths.fmt_paths(got)[:500], sample="settlement ? roll_with_settlement(date, self, modifier) : roll_without_settlement(date, self, modifier)")
+                 detail=paths.fmt_paths(got)[:500], sample="settlement ? settled table : unsettled table")
     except Unsupported as e:
         ck.fail(r4, "roll", "rule could not be established (%s)" % e, where("roll"))
     # overriding any of the provided rules in a calendar type would bypass all of the above
